@@ -16,7 +16,7 @@
 (* by the harness from the block alone.                                    *)
 (*                                                                         *)
 (* Fault event: fields id (of its Step), fault (kind cancel with k, or     *)
-(* kind engine with c and v), polls, ncalls, callnames, argsok, res: the   *)
+(* kind engine with c and v in invalid, error, errortrue), polls, ncalls, callnames, argsok, res: the   *)
 (* same step re-run from a fresh copy of the same pre-state under exactly  *)
 (* one fault.                                                              *)
 (*                                                                         *)
